@@ -145,4 +145,272 @@ theorem translate_correct (toks : List Tok) (d : Int × Int) (h : WF toks d) :
     replaceCellNames (render toks) d = .ok (render (shift toks d)) :=
   translate_go toks d h _ (Nat.le_refl _)
 
+/-- `replace_cell_names` returns `Ok` on every text (after D13: no error on non-ASCII text, no
+    panic, and the model's loop budget `fuel = length` always suffices). -/
+theorem replace_never_fails (s : List Char) (d : Int × Int) : ∃ r, replaceCellNames s d = .ok r :=
+  replaceGo_ok d s.length s (Nat.le_refl _)
+
+/-- **strings_opaque**: a quoted region (`"…"` string literal or `'…'` sheet name) is reproduced
+    unchanged whatever it contains, and the text after it is translated as if it stood alone. -/
+theorem strings_opaque (q : Char) (hq : q = '"' ∨ q = '\'') (s rest : List Char) (d : Int × Int)
+    (hs : ∀ x ∈ s, x ≠ q) :
+    replaceCellNames (q :: (s ++ q :: rest)) d = pre (q :: s ++ [q]) (replaceCellNames rest d) := by
+  have hlen : (q :: (s ++ q :: rest)).length = (s.length + rest.length + 1) + 1 := by
+    simp only [List.length_cons, List.length_append]; omega
+  unfold replaceCellNames
+  rw [hlen, replaceGo_quoted d _ q s rest hq hs, replaceGo_fuel d _ rest (by omega)]
+  rfl
+
+/-- **idents_unchanged**: a maximal run of identifier characters that does not look like a cell of
+    the sheet, or that is followed by `(` (function name) or `!` (sheet name), is reproduced
+    unchanged, and the text after it is translated as if it stood alone. -/
+theorem idents_unchanged (run rest : List Char) (d : Int × Int) (hne : run ≠ [])
+    (hrun : ∀ x ∈ run, identChar x = true) (hmax : endsRun rest.head? = true)
+    (h : cellLike run = false ∨ notCallOrSheet rest.head? = false) :
+    replaceCellNames (run ++ rest) d = pre run (replaceCellNames rest d) := by
+  have hlen : 1 ≤ run.length := by
+    cases run with
+    | nil => exact absurd rfl hne
+    | cons _ _ => simp
+  obtain ⟨f, hf⟩ : ∃ f, (run ++ rest).length = f + 1 := ⟨(run ++ rest).length - 1, by simp only [List.length_append]; omega⟩
+  have hrest : ∀ x, rest.head? = some x → isNameChar x = false := by
+    intro x hx; rw [hx] at hmax; simpa [endsRun, identChar_eq] using hmax
+  unfold replaceCellNames
+  rw [hf, replaceGo_run d f run rest hne (fun x hx => by rw [← identChar_eq]; exact hrun x hx) hrest,
+    replaceGo_fuel d f rest (by simp only [List.length_append] at hf; omega)]
+  have hout : runOut d run rest = run := by
+    rcases h with hc | hc
+    · exact runOut_none d run rest (offsetCellRef_none_of_not_cellLike run d hc)
+    · apply runOut_call; rw [nextIsCallOrSheet_eq, hc]; rfl
+  rw [hout]; rfl
+
+/-- **group_covers_ref** (after D11): whatever the master position and whatever the declared range
+    (one row, one column or a two-dimensional block), every cell of the range gets the offset
+    "its position − master position", and every cell outside the range gets none. -/
+theorem group_covers_ref (text : List Char) (ref : Rect) (master pos : Nat × Nat) :
+    (ref.sr ≤ pos.1 ∧ pos.1 ≤ ref.er ∧ ref.sc ≤ pos.2 ∧ pos.2 ≤ ref.ec →
+        (Group.mk text ref master).offsetOf pos
+          = some ((pos.1 : Int) - (master.1 : Int), (pos.2 : Int) - (master.2 : Int)))
+    ∧ (¬ (ref.sr ≤ pos.1 ∧ pos.1 ≤ ref.er ∧ ref.sc ≤ pos.2 ∧ pos.2 ≤ ref.ec) →
+        (Group.mk text ref master).offsetOf pos = none) := by
+  unfold Group.offsetOf Rect.contains
+  constructor
+  · intro ⟨h1, h2, h3, h4⟩
+    simp [h1, h2, h3, h4]
+  · intro h
+    have : (decide (pos.1 ≥ ref.sr) && decide (pos.1 ≤ ref.er) && decide (pos.2 ≥ ref.sc) && decide (pos.2 ≤ ref.ec)) = false := by
+      cases hh : (decide (pos.1 ≥ ref.sr) && decide (pos.1 ≤ ref.er) && decide (pos.2 ≥ ref.sc) && decide (pos.2 ≤ ref.ec)) with
+      | false => rfl
+      | true =>
+        simp only [Bool.and_eq_true, decide_eq_true_eq, ge_iff_le] at hh
+        exact absurd ⟨hh.1.1.1, hh.1.1.2, hh.1.2, hh.2⟩ h
+    simp [this]
+
+/-- storing the masters of a list of groups -/
+def storeAll (t : Table) (defs : List (Nat × Group)) : Table :=
+  defs.foldl (fun t p => t.store p.1 p.2) t
+
+/-- **si_any_order** (after D12): formulas are stored and looked up by `si`, whatever the order in
+    which the masters appear: after storing groups with pairwise distinct `si` in any order, looking
+    up the `si` of any of them yields exactly that group. -/
+theorem si_any_order (t : Table) (defs : List (Nat × Group)) (hd : (defs.map Prod.fst).Nodup)
+    (si : Nat) (g : Group) (hm : (si, g) ∈ defs) : (storeAll t defs).lookup si = some g := by
+  unfold storeAll
+  induction defs generalizing t with
+  | nil => cases hm
+  | cons p ps ih =>
+    simp only [List.map_cons, List.nodup_cons] at hd
+    simp only [List.foldl_cons]
+    rcases List.mem_cons.mp hm with h | h
+    · -- stored now, never overwritten later
+      subst h
+      have keep : ∀ (qs : List (Nat × Group)) (t' : Table), si ∉ qs.map Prod.fst →
+          t'.lookup si = some g → (qs.foldl (fun t p => t.store p.1 p.2) t').lookup si = some g := by
+        intro qs
+        induction qs with
+        | nil => intro t' _ h; exact h
+        | cons q qs ihq =>
+          intro t' hn h
+          simp only [List.map_cons, List.mem_cons, not_or] at hn
+          simp only [List.foldl_cons]
+          exact ihq _ hn.2 (by rw [Table.lookup_store_ne _ _ _ _ hn.1]; exact h)
+      exact keep ps _ hd.1 (Table.lookup_store_same t si g)
+    · exact ih _ hd.2 h
+
+/-- a permutation of the master definitions gives the same lookups -/
+theorem si_any_order_perm (t : Table) (defs defs' : List (Nat × Group)) (hp : defs.Perm defs')
+    (hd : (defs.map Prod.fst).Nodup) (si : Nat) (g : Group) (hm : (si, g) ∈ defs) :
+    (storeAll t defs').lookup si = (storeAll t defs).lookup si := by
+  rw [si_any_order t defs hd si g hm,
+    si_any_order t defs' ((hp.map Prod.fst).nodup_iff.mp hd) si g (hp.mem_iff.mp hm)]
+
+/-- **non_members_unaffected**: a cell without formula has none, a cell with a formula of its own
+    keeps it, a cell that names a group but lies outside the group's declared range (or names an
+    unknown group) keeps its own text; none of them changes the table of groups. -/
+theorem non_members_unaffected (t : Table) (pos : Nat × Nat) (text : List Char) :
+    cellFormula t ⟨pos, none⟩ = .ok (t, [])
+    ∧ cellFormula t ⟨pos, some (text, none)⟩ = .ok (t, text)
+    ∧ (∀ si, t.lookup si = none → cellFormula t ⟨pos, some (text, some ⟨some si, none⟩)⟩ = .ok (t, text))
+    ∧ (∀ si g, t.lookup si = some g → g.ref.contains pos.1 pos.2 = false →
+        cellFormula t ⟨pos, some (text, some ⟨some si, none⟩)⟩ = .ok (t, text)) := by
+  refine ⟨rfl, rfl, ?_, ?_⟩
+  · intro si h; simp [cellFormula, h]
+  · intro si g h hc; simp [cellFormula, h, Group.offsetOf, hc]
+
+/-- the table after a sequence of cells (when none of them fails) -/
+def runTable : Table → List CellIn → Res Table
+  | t, [] => .ok t
+  | t, c :: cs =>
+    match cellFormula t c with
+    | .ok (t', _) => runTable t' cs
+    | .err e => .err e
+    | .panic e => .panic e
+    | .outOfFuel => .outOfFuel
+
+/-- the cell defines the group `si` -/
+def definesGroup (c : CellIn) (si : Nat) : Prop :=
+  ∃ text ref, c.f = some (text, some ⟨some si, some ref⟩)
+
+theorem lookup_after_cell (t t' : Table) (c : CellIn) (v : List Char) (si : Nat)
+    (h : cellFormula t c = .ok (t', v)) (hnd : ¬ definesGroup c si) : t'.lookup si = t.lookup si := by
+  obtain ⟨pos, f⟩ := c
+  unfold cellFormula at h
+  cases f with
+  | none => simp at h; rw [← h.1]
+  | some p =>
+    obtain ⟨text, sh⟩ := p
+    cases sh with
+    | none => simp at h; rw [← h.1]
+    | some a =>
+      obtain ⟨osi, oref⟩ := a
+      cases osi with
+      | none => simp at h
+      | some sj =>
+        cases oref with
+        | some ref =>
+          simp at h
+          rw [← h.1]
+          apply Table.lookup_store_ne
+          intro e; subst e
+          exact hnd ⟨text, ref, rfl⟩
+        | none =>
+          simp only at h
+          split at h
+          · split at h
+            · split at h <;> first | (simp at h; rw [← h.1]) | cases h
+            · simp at h; rw [← h.1]
+          · simp at h; rw [← h.1]
+
+theorem lookup_after_cells (cells : List CellIn) (t t' : Table) (si : Nat)
+    (h : runTable t cells = .ok t') (hnd : ∀ c ∈ cells, ¬ definesGroup c si) :
+    t'.lookup si = t.lookup si := by
+  induction cells generalizing t with
+  | nil => simp [runTable] at h; rw [h]
+  | cons c cs ih =>
+    unfold runTable at h
+    cases hc : cellFormula t c with
+    | ok p =>
+      obtain ⟨t1, v⟩ := p
+      rw [hc] at h
+      rw [ih t1 h (fun x hx => hnd x (by simp [hx])), lookup_after_cell t t1 c v si hc (hnd c (by simp))]
+    | err e => rw [hc] at h; cases h
+    | panic e => rw [hc] at h; cases h
+    | outOfFuel => rw [hc] at h; cases h
+
+/-- **member_formula** (the property, end to end on the model of `next_formula`): in any sheet,
+    a member cell `c` of the group `si` — the master `m` with formula `render toks` and declared
+    range `ref` appears earlier, no cell in between redefines `si`, and `c` lies in `ref` — reports
+    the master formula translated by `c.pos − m.pos`, provided the formula is well-formed for that
+    offset; the cells before the master and between master and member are arbitrary (other groups in
+    any `si` order, non-members). -/
+theorem member_formula (t0 t : Table) (before between : List CellIn) (m c : CellIn)
+    (toks : List Tok) (si : Nat) (ref : Rect) (own : List Char)
+    (hm : m.f = some (render toks, some ⟨some si, some ref⟩))
+    (hbetween : ∀ x ∈ between, ¬ definesGroup x si)
+    (hc : c.f = some (own, some ⟨some si, none⟩))
+    (hin : ref.contains c.pos.1 c.pos.2 = true)
+    (hwf : WF toks ((c.pos.1 : Int) - (m.pos.1 : Int), (c.pos.2 : Int) - (m.pos.2 : Int)))
+    (hrun : runTable t0 (before ++ m :: between) = .ok t) :
+    cellFormula t c = .ok (t, render (shift toks ((c.pos.1 : Int) - (m.pos.1 : Int), (c.pos.2 : Int) - (m.pos.2 : Int)))) := by
+  -- the table just after the master
+  have split : ∀ (l : List CellIn) (ta : Table), runTable ta (l ++ m :: between) = .ok t →
+      ∃ tb tc, cellFormula tb m = .ok (tc, render toks) ∧ runTable tc between = .ok t := by
+    intro l
+    induction l with
+    | nil =>
+      intro ta h
+      simp only [List.nil_append, runTable] at h
+      obtain ⟨mpos, mf⟩ := m
+      simp only at hm; subst hm
+      simp only [cellFormula] at h ⊢
+      exact ⟨ta, _, rfl, h⟩
+    | cons x xs ih =>
+      intro ta h
+      simp only [List.cons_append, runTable] at h
+      cases hx : cellFormula ta x with
+      | ok p => rw [hx] at h; exact ih p.1 h
+      | err e => rw [hx] at h; cases h
+      | panic e => rw [hx] at h; cases h
+      | outOfFuel => rw [hx] at h; cases h
+  obtain ⟨tb, tc, hmc, hbt⟩ := split before t0 hrun
+  have htc : tc.lookup si = some ⟨render toks, ref, m.pos⟩ := by
+    obtain ⟨mpos, mf⟩ := m
+    simp only at hm; subst hm
+    simp only [cellFormula, Res.ok.injEq, Prod.mk.injEq] at hmc
+    rw [← hmc.1]; exact Table.lookup_store_same _ _ _
+  have ht : t.lookup si = some ⟨render toks, ref, m.pos⟩ := by
+    rw [lookup_after_cells between tc t si hbt hbetween, htc]
+  obtain ⟨cpos, cf⟩ := c
+  simp only at hc hin hwf ⊢; subst hc
+  simp only [cellFormula, ht, Group.offsetOf, hin, if_true]
+  rw [translate_correct toks _ hwf]
+
+/-! ### non-vacuity: concrete instances meeting the hypotheses -/
+
+/-- `$A1+LOG10(A$1)&"é A1"+AB1!B2` is well-formed for the offset (1, 1) … -/
+def demoToks : List Tok :=
+  [.ref true 0 false 0, .punct '+', .ident "LOG10".toList, .punct '(', .ref false 0 true 0, .punct ')',
+   .punct '&', .str "é A1".toList, .punct '+', .sheet "AB1".toList false, .ref false 1 false 1]
+
+example : WF demoToks (1, 1) := by decide
+
+example : render demoToks = "$A1+LOG10(A$1)&\"é A1\"+AB1!B2".toList := by decide
+
+/-- … and `translate_correct` gives its translation: `$A2+LOG10(B$1)&"é A1"+AB1!C3` -/
+example : replaceCellNames "$A1+LOG10(A$1)&\"é A1\"+AB1!B2".toList (1, 1)
+    = .ok "$A2+LOG10(B$1)&\"é A1\"+AB1!C3".toList := by
+  have h := translate_correct demoToks (1, 1) (by decide)
+  have e1 : render demoToks = "$A1+LOG10(A$1)&\"é A1\"+AB1!B2".toList := by decide
+  have e2 : render (shift demoToks (1, 1)) = "$A2+LOG10(B$1)&\"é A1\"+AB1!C3".toList := by decide
+  rw [e1, e2] at h; exact h
+
+/-- a cell-like identifier not followed by `(` or `!` is *not* well-formed (it is a reference) -/
+example : ¬ WF [.ident "TAX2021".toList] (1, 0) := by decide
+
+/-- `member_formula` on the block `B1:C2` with master `B1` = `$A1+A$1`, read after the group `si = 1`
+    was defined before the group `si = 0`: the member `C2` reports `$A2+B$1`. -/
+example :
+    let m : CellIn := ⟨(0, 1), some ("$A1+A$1".toList, some ⟨some 0, some ⟨0, 1, 1, 2⟩⟩)⟩
+    let other : CellIn := ⟨(0, 0), some ("1".toList, some ⟨some 1, some ⟨0, 0, 0, 0⟩⟩)⟩
+    let c1 : CellIn := ⟨(0, 2), some ([], some ⟨some 0, none⟩)⟩
+    let c : CellIn := ⟨(1, 2), some ([], some ⟨some 0, none⟩)⟩
+    ∃ t, runTable [] ([other] ++ m :: [c1]) = .ok t ∧ cellFormula t c = .ok (t, "$A2+B$1".toList) := by
+  intro m other c1 c
+  let toks : List Tok := [.ref true 0 false 0, .punct '+', .ref false 0 true 0]
+  have hr : render toks = "$A1+A$1".toList := by decide
+  let t : Table := [some ⟨"$A1+A$1".toList, ⟨0, 1, 1, 2⟩, (0, 1)⟩, some ⟨"1".toList, ⟨0, 0, 0, 0⟩, (0, 0)⟩]
+  have ht : runTable [] ([other] ++ m :: [c1]) = .ok t := by decide
+  refine ⟨t, ht, ?_⟩
+  have hb : ∀ x ∈ [c1], ¬ definesGroup x 0 := by
+    intro x hx
+    simp only [List.mem_cons, List.not_mem_nil, or_false] at hx
+    subst hx
+    intro ⟨text, ref, h⟩
+    cases h
+  have := member_formula [] t [other] [c1] m c toks 0 ⟨0, 1, 1, 2⟩ [] (by rw [hr]) hb rfl (by decide)
+    (by decide) ht
+  have e2 : render (shift toks (((c.pos.1 : Nat) : Int) - ((m.pos.1 : Nat) : Int), ((c.pos.2 : Nat) : Int) - ((m.pos.2 : Nat) : Int)))
+      = "$A2+B$1".toList := by decide
+  rw [e2] at this; exact this
+
 end C15
